@@ -20,11 +20,18 @@ pub fn grandfathered() -> Transaction {
 }
 
 fn faucets() -> Vec<(String, Transaction)> {
+    // the same faucet body carrying other signatures: signatures are not part of a transaction's identity (hash_nosigs)
+    let mut a_sig = tx_t(TxKind::Faucet, vec![], vec![out_t(1000, Denom::Mel)], 0, vec![1]);
+    a_sig.sigs = vec![vec![7u8; 64].into()];
+    let mut g_sig = grandfathered();
+    g_sig.sigs = vec![vec![9u8; 64].into(), vec![].into()];
     vec![
         ("faucet-a".into(), tx_t(TxKind::Faucet, vec![], vec![out_t(1000, Denom::Mel)], 0, vec![1])),
         ("faucet-b(2 outputs,fee)".into(), tx_t(TxKind::Faucet, vec![], vec![out_t(5, Denom::Sym), out_t(6, Denom::Erg)], 9, vec![2])),
         ("faucet-c(no outputs)".into(), tx_t(TxKind::Faucet, vec![], vec![], 0, vec![3])),
         ("faucet-grandfathered".into(), grandfathered()),
+        ("faucet-a/other-sigs".into(), a_sig),
+        ("faucet-grandfathered/other-sigs".into(), g_sig),
     ]
 }
 
@@ -46,6 +53,8 @@ fn acts(n: &Node, jump_to: u64) -> Vec<Action> {
             v.push(Action::Batch { label: l.clone(), txs: vec![t.clone()], expect_ok: false });
             v.push(Action::Batch { label: format!("[{l} , {l}]"), txs: vec![t.clone(), t.clone()], expect_ok: false });
         }
+        v.push(Action::Batch { label: "[faucet-a , faucet-a/other-sigs]".into(), txs: vec![fs[0].1.clone(), fs[4].1.clone()], expect_ok: false });
+        v.push(Action::Batch { label: "[faucet-grandfathered/other-sigs , faucet-grandfathered]".into(), txs: vec![fs[5].1.clone(), fs[3].1.clone()], expect_ok: false });
         v.push(Action::Batch { label: "[faucet-a , faucet-b]".into(), txs: vec![fs[0].1.clone(), fs[1].1.clone()], expect_ok: false });
         v.push(Action::Batch { label: "[faucet-b , faucet-grandfathered , faucet-a]".into(), txs: vec![fs[1].1.clone(), fs[3].1.clone(), fs[0].1.clone()], expect_ok: false });
     }
